@@ -630,6 +630,24 @@ def run_option_values(fst, res):
         res.traces += 1
         if lines != code or len(set(outs)) != 1:
             res.fail(cid, 'code-lines-modified-by-edit', f'{lines} results={outs}', {}, {'optval': ['code', src]})
+    for src, code, path, field in (('l = lambda: 0', ['x'], 'value', 'args'), ('l = lambda: 0', ['x, ', 'y'], 'value', 'args'),
+                                   ('v = [a, b]', ['c,', ' d'], 'value', None), ('if a: pass', ['b'], None, 'test')):
+        for raw in (True, 'auto', False):  # raw mode splices the lines into the source itself
+            cid = f'C20/optval/code-lines-raw/{src!r}/{code!r}/raw={raw}'
+            res.evals += 1
+            lines = list(code)
+            f = FST(src, 'exec')
+            n = getattr(f.body[0], path) if path else f.body[0]
+            try:
+                if field:
+                    n.put(lines, field=field, raw=raw)
+                else:
+                    n.put_slice(lines, 0, 1, raw=raw)
+            except Exception:  # noqa: BLE001
+                pass
+            res.traces += 1
+            if lines != code:
+                res.fail(cid, 'code-lines-modified-by-edit', f'{lines} (passed {code}) result={f.src!r}', {}, {'optval': ['code-raw', src]})
 
 
 def run_option_dicts(fst, res):
